@@ -81,10 +81,12 @@ def run(chk):
     chk.rule("R11.3", "translations are wrapped at construction; derived operations go through the constructor", 4)
     chk.rule("R11.4", "one key (the integer code) for __eq__, __hash__, __lt__, is_identity; identity constant agrees with the model everywhere", 6)
     chk.rule("R11.5", "from_integer_code seeds the integer memo with its argument; memoised codes are computed from rotation and translation", 3)
+    chk.rule("R11.8", "memoised representations are canonical: a memo attribute is only ever set to the encoder's output for the object's own "
+                      "rotation and translation (the packed code given to from_integer_code is canonical by the codec bijection R11.1/R11.2)", 2)
     chk.rule("R11.6", "applying to (N,3), to homogeneous (N,4) and in Cartesian form is the same affine map", 5)
     chk.rule("R11.7", "string codec: normalisation before splitting, tokenizer character class, sign attached to the axis token, encoder emits only such tokens", 6)
     for r, f in (("R11.1", r11_1), ("R11.2", r11_2), ("R11.3", r11_3), ("R11.4", r11_4), ("R11.5", r11_5),
-                 ("R11.6", r11_6), ("R11.7", r11_7)):
+                 ("R11.6", r11_6), ("R11.7", r11_7), ("R11.8", r11_8)):
         if chk.want(r):
             f(chk, so)
     chk.assume("rotation entries are in {-1,0,1} (documented precondition of the packed form)")
@@ -349,7 +351,11 @@ def r11_5(chk, so):
         if e.kind == "call" and call_name(e.value.as_atom() or ()) == "decode_symm_int" and e.extra["args"][0].key() == code.key():
             built = True
     chk.ob("R11.5", SO, "SymmetryOperation.from_integer_code", "the operation is decoded from the given code", built)
-    chk.ob("R11.5", SO, "SymmetryOperation.from_integer_code", "the integer memo is seeded with that same code", seeded)
+    seeds = [e for e in ev.events if (e.kind == "call" and call_name(e.value.as_atom() or ()) == "setattr" and len(e.extra["args"]) == 3
+                                      and string_value(e.extra["args"][1]) == "_integer_code") or
+             (e.kind == "store" and e.target.key().endswith("._integer_code"))]
+    chk.ob("R11.5", SO, "SymmetryOperation.from_integer_code", "if the integer memo is seeded here, then with that same code", seeded or not seeds,
+           fingerprint="seed-int", found=[str(e.value)[:80] for e in seeds])
     ev = so.ev("SymmetryOperation.integer_code")
     ok = False
     for e in ev.events:
@@ -364,6 +370,34 @@ def r11_5(chk, so):
             a = e.extra["args"]
             ok = len(a) == 2 and a[0].key() == "self.rotation" and a[1].key() == "self.translation"
     chk.ob("R11.5", SO, "SymmetryOperation.__str__", "a missing string memo is computed as encode_symm_str(rotation, translation)", ok)
+
+
+def r11_8(chk, so):
+    """Equal operations print identically only if the printed form never depends on how the operation was spelled at construction."""
+    from ..memo import instance_memos
+    memos = instance_memos(so, "SymmetryOperation")
+    chk.need({"_integer_code", "_string_code"} <= set(memos), f"memo attributes of SymmetryOperation not found: {sorted(memos)}")
+    enc = {"_integer_code": "encode_symm_int", "_string_code": "encode_symm_str"}
+    for fn in so.methods("SymmetryOperation"):
+        ev = so.ev(f"SymmetryOperation.{fn.name}")
+        for e in ev.events:
+            tgt = val = owner = None
+            if e.kind == "call" and call_name(e.value.as_atom() or ()) == "setattr" and len(e.extra["args"]) == 3:
+                owner, nm, val = e.extra["args"]
+                tgt = string_value(nm)
+            elif e.kind == "store" and e.target.as_atom() and e.target.as_atom()[0] == "attr":
+                owner, tgt, val = e.target.as_atom()[1], e.target.as_atom()[2], e.value
+            if tgt not in enc:
+                continue
+            chk.saw(SO, f"SymmetryOperation.{fn.name}")
+            o = owner.key()
+            va = val.as_atom()
+            canonical = bool(va and va[0] == "call" and call_name(va) == enc[tgt] and len(va[2]) == 2 and
+                             va[2][0].key() == f"{o}.rotation" and va[2][1].key() == f"{o}.translation")
+            by_code = tgt == "_integer_code" and fn.name == "from_integer_code" and val.key() == ev.param_names[1]
+            chk.ob("R11.8", SO, f"SymmetryOperation.{fn.name}", f"{tgt} is set to {enc[tgt]}(rotation, translation) of the same object"
+                   + (" (or to the packed code the object was decoded from)" if tgt == "_integer_code" else ""), canonical or by_code,
+                   node=e.node, fingerprint=f"seed:{tgt}", expected=f"{enc[tgt]}({o}.rotation, {o}.translation)", found=str(val)[:120])
 
 
 # ------------------------------------------------------------------------------------------------
